@@ -14,10 +14,10 @@ LEAN_MODULE = 'Proofs.C16'
 THEOREMS = ['Fsic.C16.' + n for n in [
     'lag_spec', 'lead_eq_lag_neg', 'lead_spec', 'diff_spec', 'diff_zero', 'diff_neg', 'diff_full_false_at_witness',
     'diff_spec_partial', 'dlog_def', 'length_preserved', 'lag_lead_pure', 'diff_pure', 'dlog_pure',
-    'resolve_index_label', 'resolve_labels_spec', 'resolve_labels_spec_step', 'resolve_labels_open_start', 'resolve_labels_open_stop',
+    'positional_group_verbatim', 'positional_untouched', 'segments_cover', 'positional_expression_identity',
+    'no_backtick_identity', 'resolve_index_label', 'bound_positional', 'resolve_labels_spec',
+    'resolve_labels_spec_step', 'mixed_slice_positional_start', 'mixed_slice_positional_stop',
     'builtin_spans_python_int',
-    'positional_untouched_false_at_witness', 'positional_nonliteral_false_at_witness',
-    'positional_index_partial', 'positional_slice_partial', 'no_backtick_identity',
     'missing_label_keyerror', 'namespace_precedence', 'eval_no_mutation']]
 RULE = ('helpers: every length n in 0..6 x value patterns (distinct floats, NaN/inf/-0.0, positive, ints) x every '
         'p, d in [-n-1, n+1] (and the default) x fills {default NaN, 0.0, -1.5, int 7, NaN; ints for int arrays} x '
@@ -39,9 +39,9 @@ ASSUMPTIONS = ['1-D arrays (other ranks raise NotImplementedError; the property 
                'diff with d < 0 raises NotImplementedError: the property speaks only about d >= 0']
 
 META = {
-    "text": "Theorems for arrays of every length, every integer shift, every fill and element type: lag(x,p)[i] = x[i-p] inside / fill outside through the model of np.roll + Python slice assignment; lead = lag(-p); diff for d >= 1; dlog = diff(log x); length preserved; over a memory of array cells no helper writes to a pre-existing array (input never modified). For eval: a backticked label resolves to the position label indexing uses, label slices get an inclusive stop, precedence locals > variables > helpers, the package helper table is not written when builtins is None. FALSE of the code and proved as negations at witnesses, with _partial theorems under exact guards: diff(x,0) returns x; a positional stop is incremented and a non-literal positional index raises ValueError once a backtick occurs anywhere.",
+    "text": "Theorems for arrays of every length, every integer shift, every fill and element type: lag(x,p)[i] = x[i-p] inside / fill outside through the model of np.roll + Python slice assignment; lead = lag(-p); diff for d >= 1; dlog = diff(log x); length preserved; over a memory of array cells no helper writes to a pre-existing array (input never modified). For eval: a backticked label resolves to the position label indexing uses, label slices get an inclusive stop, every bracket group without a backtick is left verbatim wherever it stands in an expression (positional_untouched, full strength) and a backtick-free component of a mixed slice keeps its text (stop+1 only for a resolved label stop), precedence locals > variables > helpers, the package helper table is not written when builtins is None. FALSE of the code and proved as a negation at a witness with a _partial theorem (d >= 1): diff(x,0) returns x.",
     "design_ref": "DESIGN.md §5 M6, §6 C16, §7 rows 12-13",
-    "note": "Trusted: Lean kernel; axioms propext/Classical.choice/Quot.sound; the correspondence harness; NumPy float subtraction = IEEE; np.log, CPython eval, the re engine, pandas get_loc/in are inputs or tied by exhaustive comparison only. The model is tied to fsic/functions.py and VectorContainer.eval/_resolve_expression_indexes by exact comparison on the generated cases, not for all inputs. The expression-level substitution loop (subAll) is covered by correspondence only; theorems are per bracket group. Known findings: diff-d0, eval-positional-stop-shifted, eval-positional-nonliteral.",
+    "note": "Trusted: Lean kernel; axioms propext/Classical.choice/Quot.sound; the correspondence harness; NumPy float subtraction = IEEE; np.log, CPython eval, the re engine, pandas get_loc/in are inputs or tied by exhaustive comparison only. The model is tied to fsic/functions.py and VectorContainer.eval/_resolve_expression_indexes by exact comparison on the generated cases, not for all inputs. That the model's segmentation of an expression is what Python's re finds is covered by the exhaustive correspondence only. Known finding: diff-d0 (open); eval-positional-stop-shifted and eval-positional-nonliteral were fixed in /repo 98e0a48 - their oracle keys stay, so a regression is a new VIOLATION.",
     "technique": "Lean 4 proof (list lemmas for roll/slice-assign, memory-cell frame lemmas, case analysis of the index rewriting) + exhaustive differential correspondence + property oracle"
 }
 
@@ -352,14 +352,30 @@ class ExprGen:
         both_spellable = self.texts[i] is not None and self.texts[j] is not None
         r = self.rng.random()
         otext = f"V['{v}'][{i}:{j + 1}:{s if s is not None else 1}]"
-        if r < 0.5 and both_spellable:
+        if r < 0.12 and self.texts[j] is not None:
+            self.features.add('mixed-pos-start-label-stop')
+            istr = str(i)
+            if self.rng.random() < 0.3:   # a positional start that is an expression, not a literal
+                istr = f'{i}+0'
+                self.features.add('pos-nonliteral')
+            txt = f'{self.pad(istr)}:{self.pad(self.bt(j))}' + (f':{step_txt}' if s is not None else '')
+            return f'{v}[{txt}]', otext
+        if r < 0.24 and self.texts[i] is not None:
+            self.features.add('mixed-label-start-pos-stop')
+            jstr = str(j + 1)
+            if self.rng.random() < 0.3:
+                jstr = f'{j}+1'
+                self.features.add('pos-nonliteral')
+            txt = f'{self.pad(self.bt(i))}:{self.pad(jstr)}' + (f':{step_txt}' if s is not None else '')
+            return f'{v}[{txt}]', otext
+        if r < 0.55 and both_spellable:
             self.features.add('label-stop')
             a, b = self.bt(i), self.bt(j)
             if i == 0 and self.rng.random() < 0.3:
                 a = ''
             txt = f'{self.pad(a)}:{self.pad(b)}' + (f':{step_txt}' if s is not None or self.rng.random() < 0.2 else '')
             return f'{v}[{txt}]', otext
-        if r < 0.65 and self.texts[i] is not None and j == n - 1:
+        if r < 0.68 and self.texts[i] is not None and j == n - 1:
             self.features.add('label-start-open-stop')
             txt = f'{self.bt(i)}:' + (f':{step_txt}' if s is not None else '')
             return f'{v}[{txt}]', otext
@@ -518,6 +534,10 @@ SPECIAL_EXPRS = [
     ('X[ `{l1}` ] * Y[-1]', "V['X'][1] * V['Y'][-1]", ['label-index', 'pos-index']),
     ('X[`{l2}`] + Y[::2][0]', "V['X'][2] + V['Y'][::2][0]", ['label-index', 'pos-slice-open']),
     ('lag(X)[`{l1}`] + diff(Y, 1)[`{l2}`]', "olag(V['X'], 1)[1] + odiff(V['Y'], 1)[2]", ['label-index']),
+    ('X[1:`{l3}`] + Y[`{l1}`:4]', "V['X'][1:4] + V['Y'][1:4]", ['mixed-pos-start-label-stop', 'mixed-label-start-pos-stop']),
+    ('X[`{l1}`:-1] * Y[ 1 : `{l3}` : 1 ]', "V['X'][1:-1] * V['Y'][1:4:1]", ['mixed-pos-start-label-stop', 'mixed-label-start-pos-stop']),
+    ('X[`{l1}`] + Y[[0, 2]][1] + Z[-3:-1][0]', "V['X'][1] + V['Y'][[0, 2]][1] + V['Z'][-3:-1][0]", ['label-index', 'pos-slice-stop', 'pos-nonliteral']),
+    ('X[1+0:`{l3}`] + Y[`{l1}`:2+2]', "V['X'][1:4] + V['Y'][1:4]", ['mixed-pos-start-label-stop', 'mixed-label-start-pos-stop', 'pos-nonliteral']),
     ('X[0:2] + Y[1:3]', "V['X'][0:2] + V['Y'][1:3]", []),
     ('X[1+1] - Z[-1]', "V['X'][2] - V['Z'][-1]", []),
 ]
